@@ -131,6 +131,16 @@ Proof.
     rewrite IH by (rewrite snoc_app; exact Hp). rewrite snoc_app. reflexivity.
 Qed.
 
+Lemma NoDup_app_disj_w {B} (l m : list B) :
+  NoDup l -> NoDup m -> (forall y, In y m -> ~ In y l) -> NoDup (l ++ m).
+Proof.
+  intros Hl Hm Hd. induction l as [|a l IHl]; simpl; [exact Hm|].
+  inversion Hl; subst. constructor.
+  - intro H. apply in_app_or in H. destruct H as [H|H]; [tauto|].
+    apply (Hd a H). left. reflexivity.
+  - apply IHl; [assumption|]. intros y Hy Hin. apply (Hd y Hy). right. exact Hin.
+Qed.
+
 Lemma wacc_cons s y b v :
   wacc s y (b :: v) = match wdelta (fl_trans s) y b with Some t => wacc s t v | None => false end.
 Proof.
@@ -175,7 +185,9 @@ Section Add.
     destruct (wassoc u (fl_trans s)) as [row|] eqn:Eu; [|exfalso; apply Hk; exact Eu].
     exists row. split; [reflexivity|]. destruct (assoc a row) as [t|] eqn:Ea; [|reflexivity]. exfalso.
     assert (Hd : wdelta (fl_trans s) u a = Some t) by (unfold wdelta; rewrite Eu; exact Ea).
-    destruct (i_live _ _ _ HI t (i_closed _ _ _ HI _ _ _ Hd)) as [v Hv].
+    assert (Htn : t <> []).
+    { intro E. subst t. pose proof (i_in _ _ _ HI _ _ _ Hd (pre_nil u)) as E. destruct u; discriminate. }
+    destruct (i_live _ _ _ HI t (i_closed _ _ _ HI _ _ _ Hd) Htn) as [v Hv].
     assert (Hacc : wacc s u (a :: v) = true) by (rewrite wacc_cons, Hd; exact Hv).
     apply (i_lang _ _ _ HI u (pre_refl _)) in Hacc.
     apply (Hfresh [a] _ ltac:(discriminate) (pre_app [a] r) Hacc). exists v. symmetry. apply snoc_app.
@@ -344,5 +356,126 @@ Section Add.
              ++ apply Hnp. exists r. unfold cur. symmetry. apply snoc_app.
              ++ exact (np_longer y y1 Hy E).
           -- split; [discriminate|intros [H|H]; [discriminate|contradiction]].
+  Qed.
+
+  Lemma new_prefix_cases x : pre x cur -> pre x u \/ exists y1, pre y1 r /\ x = np ++ y1.
+  Proof.
+    intro Hp. destruct (pre_app_split _ _ _ Hp) as [H|[z1 [Hne [[t Ht] ->]]]]; [left; exact H|right].
+    destruct z1 as [|c z1]; [contradiction|]. simpl in Ht. inversion Ht; subst c.
+    exists z1. split; [exists t; reflexivity|]. unfold np. symmetry. apply snoc_app.
+  Qed.
+
+  Lemma chain_keys_NoDup : forall r0 p, NoDup (map fst (chain p r0)).
+  Proof.
+    induction r0 as [|c r0 IH]; intro p; simpl; [constructor; [intros []|constructor]|].
+    constructor; [|apply IH]. intro Hin. apply wassoc_key in Hin. apply chain_keys in Hin.
+    destruct Hin as [y1 [_ E]]. rewrite snoc_app in E. symmetry in E.
+    exact (app_neq_self p (c :: y1) ltac:(discriminate) E).
+  Qed.
+
+  Lemma add_inv : Inv s' (cur :: done) cur.
+  Proof.
+    assert (Hku : key u (fl_trans s)) by (unfold key; rewrite Hrow; discriminate).
+    constructor; simpl.
+    - (* i_nodup *)
+      unfold tr'. rewrite map_app. apply NoDup_app_disj_w.
+      + unfold T0. apply wset_NoDup. apply (i_nodup _ _ _ HI).
+      + apply chain_keys_NoDup.
+      + intros y Hy Hin. apply wassoc_key in Hy. apply chain_keys in Hy. destruct Hy as [y1 [Hp ->]].
+        unfold T0 in Hin. rewrite wset_keys_present in Hin by (apply wassoc_key; exact Hku).
+        apply wassoc_key in Hin. exact (new_not_old y1 Hp Hin).
+    - (* i_rows *)
+      intros q rw Hq. assert (Hk : key q tr') by (unfold key; rewrite Hq; discriminate).
+      destruct (tr'_key q Hk) as [Hko|[y1 [[y2 E] ->]]].
+      + rewrite (tr'_old q Hko) in Hq. weq q u.
+        * inversion Hq. unfold row'. rewrite map_app. simpl. apply NoDup_snoc; [apply (i_rows _ _ _ HI _ _ Hrow)|].
+          apply assoc_None. exact Harow.
+        * apply (i_rows _ _ _ HI _ _ Hq).
+      + rewrite (tr'_new y1 y2 E) in Hq. inversion Hq. destruct y2; simpl; [constructor|constructor; [intros []|constructor]].
+    - (* i_path *)
+      intros x Hx. destruct (new_prefix_cases x Hx) as [Hp|[y1 [Hp ->]]].
+      + apply key_old_new. apply (i_path _ _ _ HI). exact Hp.
+      + apply key_new. exact Hp.
+    - (* i_link *)
+      intros x b Hx. destruct (new_prefix_cases _ Hx) as [Hp|[y1 [Hp E]]].
+      + apply delta'_old. apply (i_link _ _ _ HI). exact Hp.
+      + destruct (snoc_cases y1) as [->|[y1' [c ->]]].
+        * rewrite app_nil_r in E. unfold np in E. apply app_inj_tail in E. destruct E as [-> ->]. apply delta'_u_a.
+        * rewrite app_assoc in E. apply app_inj_tail in E. destruct E as [-> ->].
+          destruct Hp as [y2 Hr]. rewrite snoc_app in Hr. unfold wdelta. rewrite (tr'_new y1' (c :: y2) Hr).
+          simpl. rewrite Nat.eqb_refl. rewrite app_assoc. reflexivity.
+    - (* i_in *)
+      intros q b t Hd Ht. destruct (delta'_inv _ _ _ Hd) as [Ho|[[-> [-> ->]]|[y1 [y2 [_ [-> ->]]]]]].
+      + destruct (new_prefix_cases t Ht) as [Hp|[y1 [Hp ->]]].
+        * apply (i_in _ _ _ HI _ _ _ Ho Hp).
+        * exfalso. exact (new_not_old y1 Hp (i_closed _ _ _ HI _ _ _ Ho)).
+      + reflexivity.
+      + rewrite app_assoc. reflexivity.
+    - (* i_lang *)
+      intros x Hx v. destruct (new_prefix_cases x Hx) as [Hp|[y1 [[y2 E] ->]]].
+      + rewrite (path_acc v x Hp). rewrite (i_lang _ _ _ HI x Hp v). split; intros [H|H]; auto.
+      + rewrite (chain_acc v y1 y2 E). split.
+        * intros ->. left. rewrite cur_np, E, app_assoc. reflexivity.
+        * intros [H|H].
+          -- rewrite cur_np, E, <- app_assoc in H. apply app_inv_head in H. apply app_inv_head in H. congruence.
+          -- exfalso. apply (Hfresh [a] _ ltac:(discriminate) (pre_app [a] r) H). exists (y1 ++ v).
+             unfold np. rewrite <- !app_assoc. reflexivity.
+    - (* i_sigs *)
+      intros sg q Hin. destruct (i_sigs _ _ _ HI _ _ Hin) as (H1 & H2 & H3).
+      assert (Hkq : key q (fl_trans s)).
+      { unfold compute_signature in H2. unfold key. destruct (wassoc q (fl_trans s)); [discriminate|discriminate]. }
+      split; [|split].
+      + intro Hp. destruct (new_prefix_cases q Hp) as [Hp'|[y1 [Hp' ->]]]; [contradiction|].
+        exact (new_not_old y1 Hp' Hkq).
+      + unfold compute_signature in *. simpl. rewrite (tr'_old q Hkq).
+        weq q u; [exfalso; apply H1; subst; apply pre_refl|]. rewrite wmem_wadd.
+        weq q cur; [exfalso; apply cur_not_key; subst; exact Hkq|]. exact H2.
+      + unfold bkey, bk' in *. rewrite wassoc_app. destruct (wassoc q (fl_back s)); [discriminate|contradiction].
+    - (* i_back *)
+      intros x b Hx. unfold bk'. rewrite wassoc_app. destruct (new_prefix_cases _ Hx) as [Hp|[y1 [[y2 Hr] E]]].
+      + rewrite (i_back _ _ _ HI x b Hp). reflexivity.
+      + unfold np in E. rewrite snoc_app in E.
+        destruct (snoc_cases (a :: y1)) as [Hnil|[z1 [c Ez]]]; [discriminate|].
+        rewrite Ez in E. rewrite app_assoc in E. apply app_inj_tail in E. destruct E as [-> ->].
+        rewrite <- app_assoc. rewrite fresh_bk.
+        * apply (bchain_lookup (a :: r) u z1 c y2). rewrite <- snoc_app, <- Ez. simpl. rewrite Hr. reflexivity.
+        * intro H. destruct z1; discriminate.
+        * exists y2. rewrite <- Ez. simpl. rewrite Hr. reflexivity.
+    - (* i_closed *)
+      intros q b t Hd. destruct (delta'_inv _ _ _ Hd) as [Ho|[[-> [-> ->]]|[y1 [y2 [Hr [-> ->]]]]]].
+      + apply key_old_new. apply (i_closed _ _ _ HI _ _ _ Ho).
+      + rewrite <- (app_nil_r np). apply key_new. apply pre_nil.
+      + apply key_new. exists y2. rewrite snoc_app. exact Hr.
+    - (* i_fin *)
+      intros q Hq. apply wadd_In in Hq. destruct Hq as [->|Hq].
+      + rewrite cur_np. apply key_new. apply pre_refl.
+      + apply key_old_new. apply (i_fin _ _ _ HI). exact Hq.
+    - apply wadd_NoDup. apply (i_findup _ _ _ HI).
+    - (* i_names *)
+      intros q Hq. unfold bkey, bk' in Hq. rewrite wassoc_app in Hq.
+      destruct (wassoc q (fl_back s)) eqn:Eq.
+      + destruct (i_names _ _ _ HI q) as [H|[w [Hw Hp]]]; [unfold bkey; rewrite Eq; discriminate|left; exact H|].
+        right. exists w. split; [right; exact Hw|exact Hp].
+      + apply bchain_keys in Hq. destruct Hq as [y1 [_ [Hp ->]]]. right. exists cur. split; [left; reflexivity|].
+        unfold cur. apply pre_cancel. exact Hp.
+    - (* i_keys *)
+      intros q Hq. unfold bkey, bk'. rewrite wassoc_app. destruct (tr'_key q Hq) as [Hko|[y1 [[y2 Hr] ->]]].
+      + pose proof (i_keys _ _ _ HI q Hko) as Hb. unfold bkey in Hb. destruct (wassoc q (fl_back s)); [discriminate|contradiction].
+      + destruct (wassoc (np ++ y1) (fl_back s)); [discriminate|].
+        unfold np. rewrite snoc_app. destruct (snoc_cases (a :: y1)) as [Hnil|[z1 [c Ez]]]; [discriminate|].
+        rewrite Ez. rewrite (bchain_lookup (a :: r) u z1 c y2); [discriminate|].
+        rewrite <- snoc_app, <- Ez. simpl. rewrite Hr. reflexivity.
+    - (* i_syms *)
+      intros q b t Hd. destruct (delta'_inv _ _ _ Hd) as [Ho|[[-> [-> ->]]|[y1 [y2 [Hr _]]]]].
+      + destruct (i_syms _ _ _ HI _ _ _ Ho) as [w [Hw Hb]]. exists w. split; [right; exact Hw|exact Hb].
+      + exists cur. split; [left; reflexivity|]. unfold cur. apply in_or_app. right. left. reflexivity.
+      + exists cur. split; [left; reflexivity|]. unfold cur. apply in_or_app. right. right. rewrite Hr.
+        apply in_or_app. right. left. reflexivity.
+    - (* i_live *)
+      intros q Hq Hqn. destruct (tr'_key q Hq) as [Hko|[y1 [[y2 Hr] ->]]].
+      + destruct (i_live _ _ _ HI q Hko Hqn) as [v Hv]. exists v. destruct (prefixb q u) eqn:Ep.
+        * apply prefixb_spec in Ep. apply (path_acc v q Ep). left. exact Hv.
+        * rewrite off_acc; [exact Hv|]. split; [exact Hko|]. intro H. apply prefixb_spec in H. congruence.
+      + exists y2. apply (chain_acc y2 y1 y2 Hr). reflexivity.
   Qed.
 End Add.
